@@ -26,6 +26,7 @@ fn main() {
             };
             let ctx = Ctx { prop: args[2].clone(), tier, seed, threads, scale };
             fw::init_known(&ctx.prop);
+            encverif::guard::install_fault_handler(&ctx.prop);
             let code = encverif::checks::run(&ctx);
             std::process::exit(code);
         }
@@ -70,6 +71,11 @@ fn main() {
         "replay" => {
             if args.len() < 3 {
                 usage();
+            }
+            if let Ok(t) = std::fs::read_to_string(&args[2]) {
+                if let Ok(v) = serde_json::from_str::<serde_json::Value>(&t) {
+                    encverif::guard::install_fault_handler(v.get("property").and_then(|p| p.as_str()).unwrap_or(""));
+                }
             }
             let code = encverif::checks::replay(&args[2]);
             std::process::exit(code);
